@@ -3116,7 +3116,8 @@ type IntervalExpr struct {
 
 // Format formats the node.
 func (node *IntervalExpr) Format(buf *TrackedBuffer) {
-	buf.Myprintf("interval %v %s", node.Expr, node.Unit)
+	// The unit is read as an sql_id: quote it when it could not be read back bare.
+	buf.Myprintf("interval %v %v", node.Expr, NewColIdent(node.Unit))
 }
 
 func (node *IntervalExpr) walkSubtree(visit Visit) error {
